@@ -13,6 +13,13 @@ CLAIMS = {
          "parser+interpreter and the extracted model on all ordered pairs of a boundary set (i64 and u64) under every "
          "operator, as literals and as variables, plus random pairs; debug and release profiles in the thorough tier."),
  "C09": ("Theorems: != is the negation of ==; comparison of int/uint with double is the comparison of the exact numbers denoted (NaN unordered); trichotomy, <= iff < or ==, antisymmetry for all values; code-point order of strings; list and map equality characterised element-wise; unrelated kinds unequal and unordered; max/min bound lemma; transitivity for int/uint, strings and int-double-int chains (partial: chains with two doubles rely on SpecFloat.SFcompare, trusted). Tied to objects.rs/functions.rs by all pairs of a ~100-value boundary set through Value::eq/partial_cmp and 12 program forms, with the laws also evaluated on the implementation own answers (pairs and triples)."),
+ "C10": ("Theorems that evaluating the parser's expansion of all / exists / exists_one / map (2 and 3 arguments) / filter equals "
+         "evaluating the range once and then a readable left-to-right fold over its elements (map: its keys) that stops at the "
+         "deciding element, aborts at the first error reached and logs exactly the visited elements' host calls - for every "
+         "context, range, variable and body, by induction on the element list with a proved context-weakening lemma; plus the "
+         "forallb/existsb/filter/map corollaries for pure bodies. The expansions are tied to antlr/src/macros.rs and the evaluator "
+         "to objects.rs by running every macro form over all lists of length 0-4 from a 4-value alphabet with raising and logging "
+         "bodies, maps and nested macros, and by comparing the expansion itself with the real parser."),
  "C06": ("Theorems that Eval.eval (a structural Fixpoint transcribing Value::resolve) returns the left operand's outcome "
          "and host-call log alone when && / || are decided by it, evaluates exactly one branch of ?:, and propagates a "
          "left error - for every context and operand expression, hence at every depth and inside macro bodies. Tied to the "
